@@ -67,7 +67,7 @@ fn any_state<'a, S: Src>(s: &mut S, orig: &'a str) -> (Ctx<'a>, Parser<'a>) {
 /// a state whose `yielded_last_split` flag is set.  The flag is only ever set together with an empty
 /// remainder and is never cleared, so every such reachable state is "empty remainder at some char
 /// boundary x, flag set"; one `split` on an empty parser at x produces exactly that.
-fn exhausted_at<'a, S: Src>(s: &mut S, c: &Ctx<'a>) -> Parser<'a> {
+fn exhausted_at<'a, S: Src>(s: &mut S, c: &Ctx<'a>) -> (Parser<'a>, bool) {
     let x = s.upto(c.ob.len());
     s.assume(ref_boundary(c.ob, x));
     let e = Parser::with_start_offset(sub_str(c.ob, x, x), c.base + x);
@@ -75,10 +75,10 @@ fn exhausted_at<'a, S: Src>(s: &mut S, c: &Ctx<'a>) -> Parser<'a> {
         Ok((_, q)) => q,
         Err(_) => e,
     };
-    // inductive hypothesis for that state (`split`/`rsplit` are checked as operations under test in c13_split_*)
+    // second component: the inductive hypothesis for that state, to be assumed by the caller when it uses
+    // the state (`split`/`rsplit` themselves are operations under test in c13_split_*)
     let hyp = inv_slice(c, q) && inv_bound(c, q);
-    s.assume(hyp);
-    q
+    (q, hyp)
 }
 
 fn drop_piece<'a>(r: Result<(&'a str, Parser<'a>), ParseError<'a>>) -> Result<Parser<'a>, ParseError<'a>> {
@@ -572,7 +572,9 @@ harness! {
         let (c1, p) = any_state(s, orig);
         let c = &c1;
         let flagged = s.bool();
-        let p = if flagged { exhausted_at(s, c) } else { p };
+        let (q, hyp) = exhausted_at(s, c);
+        s.assume(!flagged || hyp);
+        let p = if flagged { q } else { p };
         let which = s.upto(1);
         let pat = s.char();
         let r = fam_split(s, c, p, which, pat);
@@ -593,7 +595,9 @@ harness! {
         let (c1, p) = any_state(s, orig);
         let c = &c1;
         let flagged = s.bool();
-        let p = if flagged { exhausted_at(s, c) } else { p };
+        let (q, hyp) = exhausted_at(s, c);
+        s.assume(!flagged || hyp);
+        let p = if flagged { q } else { p };
         let which = s.upto(1);
         let ps = BStr::<2>::any(s);
         let pat = ps.as_str();
@@ -615,7 +619,9 @@ harness! {
         let (c1, p) = any_state(s, orig);
         let c = &c1;
         let flagged = s.bool();
-        let p = if flagged { exhausted_at(s, c) } else { p };
+        let (q, hyp) = exhausted_at(s, c);
+        s.assume(!flagged || hyp);
+        let p = if flagged { q } else { p };
         let which = 2;
         let pat = s.char();
         let r = fam_split(s, c, p, which, pat);
@@ -634,7 +640,9 @@ harness! {
         let (c1, p) = any_state(s, orig);
         let c = &c1;
         let flagged = s.bool();
-        let p = if flagged { exhausted_at(s, c) } else { p };
+        let (q, hyp) = exhausted_at(s, c);
+        s.assume(!flagged || hyp);
+        let p = if flagged { q } else { p };
         let which = 2;
         let ps = BStr::<2>::any(s);
         let pat = ps.as_str();
@@ -654,7 +662,9 @@ harness! {
         let (c1, p) = any_state(s, orig);
         let c = &c1;
         let flagged = s.bool();
-        let p = if flagged { exhausted_at(s, c) } else { p };
+        let (q, hyp) = exhausted_at(s, c);
+        s.assume(!flagged || hyp);
+        let p = if flagged { q } else { p };
         let which = s.upto(1);
         let pat = s.char();
         let r = fam_split_terminator(s, c, p, which, pat);
@@ -675,7 +685,9 @@ harness! {
         let (c1, p) = any_state(s, orig);
         let c = &c1;
         let flagged = s.bool();
-        let p = if flagged { exhausted_at(s, c) } else { p };
+        let (q, hyp) = exhausted_at(s, c);
+        s.assume(!flagged || hyp);
+        let p = if flagged { q } else { p };
         let which = s.upto(1);
         let ps = BStr::<2>::any(s);
         let pat = ps.as_str();
@@ -838,7 +850,9 @@ harness! {
         let (c1, p) = any_state(s, orig);
         let c = &c1;
         let flagged = s.bool();
-        let p = if flagged { exhausted_at(s, c) } else { p };
+        let (q, hyp) = exhausted_at(s, c);
+        s.assume(!flagged || hyp);
+        let p = if flagged { q } else { p };
         let which = s.upto(2);
         let pat = s.char();
         let r = fam_split(s, c, p, which, pat);
@@ -857,7 +871,9 @@ harness! {
         let (c1, p) = any_state(s, orig);
         let c = &c1;
         let flagged = s.bool();
-        let p = if flagged { exhausted_at(s, c) } else { p };
+        let (q, hyp) = exhausted_at(s, c);
+        s.assume(!flagged || hyp);
+        let p = if flagged { q } else { p };
         let which = s.upto(2);
         let ps = BStr::<2>::any(s);
         let pat = ps.as_str();
@@ -877,7 +893,9 @@ harness! {
         let (c1, p) = any_state(s, orig);
         let c = &c1;
         let flagged = s.bool();
-        let p = if flagged { exhausted_at(s, c) } else { p };
+        let (q, hyp) = exhausted_at(s, c);
+        s.assume(!flagged || hyp);
+        let p = if flagged { q } else { p };
         let which = s.upto(1);
         let pat = s.char();
         let r = fam_split_terminator(s, c, p, which, pat);
@@ -896,7 +914,9 @@ harness! {
         let (c1, p) = any_state(s, orig);
         let c = &c1;
         let flagged = s.bool();
-        let p = if flagged { exhausted_at(s, c) } else { p };
+        let (q, hyp) = exhausted_at(s, c);
+        s.assume(!flagged || hyp);
+        let p = if flagged { q } else { p };
         let which = s.upto(1);
         let ps = BStr::<2>::any(s);
         let pat = ps.as_str();
